@@ -181,4 +181,4 @@ def cases(ctx):
                             "spec": {"t": "data", "high": rom == "high", "org": org, "off": _phys(rom, org),
                                      "items": [("bin", list(content))], "end": "zz_end",
                                      "tail": [None, org, length]}})
-    return out
+    return core.mark_must_assemble(out, {'incbin', 'data', 'ascii', 'expr-refs', 'ascii-with-table', 'shadowed'})
